@@ -123,7 +123,45 @@ impl IntVal {
     pub fn gen(rng: &mut Rng, ty: IntTy) -> IntVal {
         let neg = ty.signed() && rng.chance(1, 2);
         let lim = if neg { ty.min_mag() } else { ty.max_mag() };
-        let mag = match rng.below(14) {
+        let mag = match rng.below(16) {
+            14 | 15 => {
+                // digit groups (2, 3, 4, 8, 9, 16 or 19 digits wide) drawn from the extremes of a group:
+                // where table-driven and divide-by-10^g renderers / parsers pad, carry or overflow
+                let g = *rng.pick(&[2usize, 3, 4, 4, 8, 9, 16, 19]);
+                let groups = 1 + rng.below((39 / g as u64).max(1) + 1) as usize;
+                let mut digits: Vec<u8> = Vec::new();
+                for _ in 0..groups {
+                    let grp: Vec<u8> = match rng.below(7) {
+                        0 => vec![0; g],
+                        1 => vec![9; g],
+                        2 => {
+                            let mut v = vec![0; g];
+                            v[g - 1] = 1;
+                            v
+                        }
+                        3 => {
+                            let mut v = vec![0; g];
+                            v[0] = 1;
+                            v
+                        }
+                        4 => {
+                            let mut v = vec![9; g];
+                            v[g - 1] = 0;
+                            v
+                        }
+                        _ => (0..g).map(|_| rng.below(10) as u8).collect(),
+                    };
+                    digits.extend(grp);
+                }
+                let mut m: u128 = 0;
+                for d in digits {
+                    m = match m.checked_mul(10).and_then(|x| x.checked_add(d as u128)) {
+                        Some(x) if x <= lim => x,
+                        _ => break,
+                    };
+                }
+                m
+            }
             12 => {
                 // digit patterns where carries and digit-group arithmetic go wrong: a random head
                 // followed by a run of 9s or 0s (…9999, …0000), within the type's range
